@@ -18,7 +18,7 @@ from pathlib import Path
 from harness import common, wiregen, wirerig
 from harness.common import Ctx, Disagreement, Failure
 
-THEOREM_MODULES = ['ExaModel.Props.C02']
+THEOREM_MODULES = ['ExaModel.Props.C02', 'ExaModel.Props.C02Exa']
 DRIVERS = ['drv_wire']
 TABLES = ['attr', 'family']
 ASSUMPTIONS = [
